@@ -691,6 +691,7 @@ func runC07(c *Ctx) {
 	c.E1Assumptions()
 	R := c.R
 	R.Rules["E3.roundtrip-layout"] = "for a message type whose Encode builds its body without loops: every place (offset, width, form) where the encoder puts a field is a place where the parser reads that field from, with the inverse form (uN big-endian <-> uN read, raw bytes <-> string/bytes window, NUL-padded <-> trimmed / cut at NUL, UTF82GBK <-> GBK2UTF8 to the end, Time2BCD <-> BCD2Time over 6 bytes); offsets are compared symbolically, under the in-domain assumptions that a length field equals the length of the value it announces and that a value the parser reads with a fixed width has that width (listed per type in the evidence)"
+	R.Rules["E3.roundtrip-list"] = "for a list-carrying type with fixed-size records: the encoder's loop appends one contiguous record per element, the parser's loop reads, in iteration i, every field of the element at first-record offset + stride*i + the field's offset in the record, with the inverse form and width (entailed from the parser's own loop invariants)"
 	R.Rules["E3.parser-reads-written-bytes"] = "every integer field the parser reads at a constant offset lies inside bytes the encoder writes (an encoder that omits a field its parser requires cannot round-trip)"
 	R.Rules["S.codec-helpers"] = "GBK2UTF8 / UTF82GBK return, on every path, what the GBK decoder / encoder produced from the whole argument (no bypass that hands back the input); String2FillingBytes returns exactly `size` bytes on every path"
 	var decidedN, notCov int
@@ -725,6 +726,18 @@ func runC07(c *Ctx) {
 				continue
 			}
 			if !dec {
+				// list-carrying types: record layout per element
+				if lr := c.c07List(t); lr.decided {
+					decidedN++
+					st, d := report.Discharged, ""
+					if len(lr.problems) > 0 {
+						st, d = report.Violated, strings.Join(lr.problems, "; ")
+					}
+					R.Add("E3.roundtrip-list", fmt.Sprintf("%s / records of %d bytes from offset %d, %d fields", name, lr.stride, lr.base, len(lr.fields)), c.P.RelPos(t.enc.Pos()), st, d)
+					continue
+				} else if c07Debug {
+					fmt.Printf("C07 list %s undecided: %s\n", name, lr.why)
+				}
 				notCov++
 				notCovered = append(notCovered, name)
 				continue
